@@ -293,15 +293,41 @@ def run(tier, seed):
         case = dict(kernel="flat", A3=A3, trace_outer=outer, explicit_zeros=False)
         rec.case("flattened-outer-rank", (repr(A3), outer))
         check_kernel(rec, "flattened-outer-rank", case, lambda: kernel_flat(A3, 2, n, outer))
+    # at scale: more rows and longer rows (8-12 x 12-24 operands), traces of several dozen rows
+    def big_rows(rows, nn, zeros):
+        out = []
+        for _m in range(rows):
+            if rnd.random() < 0.15:
+                out.append(None)
+            else:
+                vals = (0, 1, 2) if zeros else (1, 2)
+                out.append([(c, rnd.choice(vals)) for c in range(nn) if rnd.random() < rnd.choice([0.2, 0.6])])
+        return out
+    for _ in range(20 if tier == "quick" else 300):
+        if rec.out_of_time():
+            break
+        rows, nn = rnd.choice([(8, 12), (12, 24), (10, 16)])
+        zeros = rnd.random() < 0.3
+        A, B = big_rows(rows, nn, zeros), big_rows(rows, nn, zeros)
+        case = dict(kernel="iter", A=A, n=nn, explicit_zeros=has_zero(A))
+        rec.case("scale", ("iter", repr(A)))
+        check_kernel(rec, "scale", case, lambda: kernel_iter(A, nn))
+        case = dict(kernel="intersect", A=A, B=B, n=nn, explicit_zeros=has_zero(A) or has_zero(B))
+        rec.case("scale", ("intersect", repr(A), repr(B)))
+        check_kernel(rec, "scale", case, lambda: kernel_intersect(A, B, nn))
+        Z, A2 = big_rows(rows, nn, False), big_rows(rows, nn, False)
+        case = dict(kernel="populate", Z=Z, A=A2, n=nn, explicit_zeros=False)
+        rec.case("scale", ("populate", repr(Z), repr(A2)))
+        check_kernel(rec, "scale", case, lambda: kernel_populate(Z, A2, nn))
     return rec.result("seeded random 2-level loop nests over 3x3 operands (rows absent / empty / with explicit zeros): plain iteration, two-operand "
                       "intersection at both ranks, populate at both ranks; all trace types registered (iter, intersect_i, populate_i, populate_read/"
                       "write_i); header, row width, stamp order, rows compared one by one with an independent re-execution of the loop nest on plain "
-                      "lists; flush thresholds 2, 3, 1000; consumable vs file traces")
+                      "lists; flush thresholds 2, 3, 1000; consumable vs file traces; plus seeded random loop nests at scale (8-12 rows of up to 24 coordinates)")
 
 
 def replay(case):
     rec = Recorder("C16", "replay", 0)
-    n = 3
+    n = case.get("n", 3)
     tl = lambda rows: [None if r is None else [tuple(x) for x in r] for r in rows]
     if case["kernel"] == "iter":
         A = tl(case["A"])
